@@ -3,3 +3,6 @@ import RV.Facts.TieC01
 import RV.Facts.TieC03
 import RV.Facts.TieC06
 import RV.Facts.TieC07
+import RV.Facts.TieC10
+import RV.Facts.TieC04
+import RV.Facts.TieC11
